@@ -26,7 +26,7 @@ type poolSys struct {
 	returned map[int32]bool
 }
 
-func (s *poolSys) size() int { return int(s.max-s.min) + 1 }
+func (s *poolSys) size() int            { return int(s.max-s.min) + 1 }
 func (s *poolSys) inRange(v int32) bool { return v >= s.min && v <= s.max }
 func (s *poolSys) outs() string {
 	ks := make([]int, 0, len(s.out))
